@@ -54,6 +54,7 @@ func runC07(c *Ctx) {
 	p := c.P
 	f := p.Fn("rt/middleware.NegotiateContentType")
 	negotiateSelection(c, "R07.1", "R07.2")
+	ruleNormalizeOfferCuts(c, "R07.6")
 	negotiateMatchers(c, "R07.6")
 	ruleOffersDefaultLast(c, "R07.1")
 
